@@ -34,6 +34,9 @@ type Cfg struct {
 	// distinct under the compiler's documented numbering "largest so far + 1"). Only for checks
 	// that do not compare implicit values with Thrift's numbering (C11).
 	EnumDecreasing bool
+	// ScopeSpread: scopes get up to 5 operations and prefer payload types from included files
+	// they do not reference yet (import lists with several entries)
+	ScopeSpread bool
 	Scale        int // multiplies declaration counts (1 = small)
 	Dirs         bool
 	Services     bool
@@ -50,7 +53,7 @@ type Cfg struct {
 }
 
 func DefaultCfg() *Cfg {
-	c := &Cfg{MaxFiles: 3, Scale: 1, Services: true, Scopes: true, Consts: true, Defaults: true, Annots: true, Docs: true,
+	c := &Cfg{MaxFiles: 3, Scale: 1, Services: true, Scopes: true, ScopeSpread: true, Consts: true, Defaults: true, Annots: true, Docs: true,
 		Hazards: map[string]bool{}, Excluded: map[string]int{}}
 	// VERIF_HAZARDS=tag,tag enables hazard tags (used to re-examine known findings, never by registered checks)
 	for _, h := range strings.Split(os.Getenv("VERIF_HAZARDS"), ",") {
@@ -713,8 +716,37 @@ func (b *builder) genDecls() {
 			d.Prefix = c.GenPrefix(t)
 			on := newNamer()
 			no := rapid.IntRange(1, 3).Draw(t, "nops")
+			if c.ScopeSpread {
+				no = rapid.IntRange(1, 5).Draw(t, "nops5")
+			}
+			seenFiles := map[int]bool{b.fi: true}
 			for j := 0; j < no; j++ {
-				d.Ops = append(d.Ops, Op{Name: c.genName(t, on, "op", []string{"pascal", "title", "camel", "lower"}), Type: b.genType("op.t", 2, false, nil), Doc: b.doc("op"), Ann: b.ann("op")})
+				ty := b.genType("op.t", 2, false, nil)
+				if c.ScopeSpread && rapid.Bool().Draw(t, "op.spread") {
+					// a type of an included file this scope does not reference yet
+					var cands []avail
+					for _, a := range b.types {
+						if !seenFiles[a.file] && (a.kind == "struct" || a.kind == "union" || a.kind == "enum") {
+							cands = append(cands, a)
+						}
+					}
+					if len(cands) > 0 {
+						a := cands[rapid.IntRange(0, len(cands)-1).Draw(t, "op.spread.ref")]
+						ty = &Type{Kind: "ref", Name: a.name, File: a.file}
+						switch rapid.IntRange(0, 3).Draw(t, "op.spread.wrap") {
+						case 0:
+							ty = &Type{Kind: "list", Val: ty}
+						case 1:
+							ty = &Type{Kind: "map", Key: &Type{Kind: "base", Name: "string"}, Val: ty}
+						}
+					}
+				}
+				walkType(ty, func(x *Type) {
+					if x.Kind == "ref" {
+						seenFiles[x.File] = true
+					}
+				})
+				d.Ops = append(d.Ops, Op{Name: c.genName(t, on, "op", []string{"pascal", "title", "camel", "lower"}), Type: ty, Doc: b.doc("op"), Ann: b.ann("op")})
 			}
 			b.f.Decls = append(b.f.Decls, d)
 		}
